@@ -6,7 +6,7 @@
 //
 // ops (state of a case = rule list under construction + trace under construction):
 //
-//	rule name=<enc> scope=<enc> rate=<int> drop=<0|1> down=<none|det<N>|dyn<N>|missing<N>>
+//	rule name=<enc> scope=<enc> rate=<int> drop=<0|1> down=<none|det<N>|dyn<N>[:f+g]|ema<N>[:f+g]|missing<N>>
 //	cond field=<enc> fields=<enc,enc..|-> op=<enc> dt=<enc> val=<valtok>      (appended to the last rule)
 //	span root=<0|1> [kind=<s|e|l>] <enc field>=<valtok> …   (appended to the trace; e = span event, l = link)
 //	cleartrace
@@ -415,15 +415,23 @@ func (r *runner) Do(op []string) (string, bool) {
 	return "bad-op", true
 }
 
+// downCfg: det<N> | missing<N> | dyn<N>[:<f1>+<f2>…] | ema<N>[:<f1>+…]   (default field list: a)
 func downCfg(d string) (*config.RulesBasedDownstreamSampler, bool) {
-	num := func(p string) int { n, _ := strconv.Atoi(strings.TrimPrefix(d, p)); return n }
+	spec, fl := d, "a"
+	if i := strings.IndexByte(d, ':'); i >= 0 {
+		spec, fl = d[:i], d[i+1:]
+	}
+	fields := strings.Split(fl, "+")
+	num := func(p string) int { n, _ := strconv.Atoi(strings.TrimPrefix(spec, p)); return n }
 	switch {
-	case strings.HasPrefix(d, "det"):
+	case strings.HasPrefix(spec, "det"):
 		return &config.RulesBasedDownstreamSampler{DeterministicSampler: &config.DeterministicSamplerConfig{SampleRate: num("det")}}, false
-	case strings.HasPrefix(d, "missing"):
+	case strings.HasPrefix(spec, "missing"):
 		return &config.RulesBasedDownstreamSampler{DeterministicSampler: &config.DeterministicSamplerConfig{SampleRate: num("missing")}}, true
-	case strings.HasPrefix(d, "dyn"):
-		return &config.RulesBasedDownstreamSampler{DynamicSampler: &config.DynamicSamplerConfig{SampleRate: int64(num("dyn")), FieldList: []string{"a"}}}, false
+	case strings.HasPrefix(spec, "dyn"):
+		return &config.RulesBasedDownstreamSampler{DynamicSampler: &config.DynamicSamplerConfig{SampleRate: int64(num("dyn")), FieldList: fields}}, false
+	case strings.HasPrefix(spec, "ema"):
+		return &config.RulesBasedDownstreamSampler{EMADynamicSampler: &config.EMADynamicSamplerConfig{GoalSampleRate: num("ema"), FieldList: fields}}, false
 	}
 	return nil, false
 }
@@ -448,6 +456,9 @@ func (r *runner) eval(seed int64) string {
 	factory := &sample.SamplerFactory{Logger: &logger.NullLogger{}, Metrics: &metrics.NullMetrics{}}
 	factory.Start()
 	defer factory.Stop()
+	refFactory := &sample.SamplerFactory{Logger: &logger.NullLogger{}, Metrics: &metrics.NullMetrics{}}
+	refFactory.Start()
+	defer refFactory.Stop()
 	s := &sample.RulesBasedSampler{Config: cfg, Logger: &logger.NullLogger{}, Metrics: &metrics.NullMetrics{}, SamplerFactory: factory}
 	if err := s.Start(); err != nil {
 		return "start-error"
@@ -515,11 +526,15 @@ func (r *runner) eval(seed int64) string {
 	for i, rs := range r.rules {
 		rule := cfg.Rules[i]
 		if rule.Sampler != nil {
-			d, ok := sample.VerifRulesDownstream(s, rule)
-			if !ok {
+			// The answer of THIS rule's downstream sampler, obtained independently of the table the
+			// rules sampler keeps: a fresh sampler of the same definition from a factory of our own
+			// (downstream samplers start from their configured goal rate; the draw is seeded).
+			if _, miss := downCfg(rs.down); miss {
 				e.emit("down %d = missing", i)
 				continue
 			}
+			refCfg, _ := downCfg(rs.down)
+			d := refFactory.GetDownstreamSampler("", refCfg)
 			rand.Seed(seed)
 			rate, keep, reason, key := d.GetSampleRate(trace)
 			e.emit("down %d = %d %s %s %s", i, rate, b01(keep), kit.Enc(reason), kit.Enc(key))
@@ -755,29 +770,55 @@ func genCond(r *kit.Rng) string {
 	return fmt.Sprintf("cond field=%s fields=%s op=%s dt=%s val=%s", kit.Enc(field), fs, kit.Enc(op), kit.Enc(dt), v.tok())
 }
 
+// per case: the scope, condition count, rate and name most rules share, so that rules that differ
+// only in their conditions and downstream samplers are common
+var houseScope string
+var houseConds int
+var houseName string
+
+func genDown(r *kit.Rng) string {
+	fl := []string{"a", "b", "a+b", "c", "d+a"}[r.Intn(5)]
+	switch r.Pick(34, 33, 25, 8) {
+	case 0:
+		return fmt.Sprintf("det%d", []int{1, 2, 3, 7, 11}[r.Intn(5)])
+	case 1:
+		return fmt.Sprintf("dyn%d:%s", []int{1, 2, 5, 9}[r.Intn(4)], fl)
+	case 2:
+		return fmt.Sprintf("ema%d:%s", []int{1, 3, 4, 8}[r.Intn(4)], fl)
+	}
+	return "missing2"
+}
+
 func genRule(r *kit.Rng, idx int) []string {
 	name := fmt.Sprintf("r%d", idx)
-	switch r.Pick(90, 5, 3, 2) {
+	switch r.Pick(52, 22, 20, 3, 3) {
 	case 1:
-		name = "r0" // duplicate names are legal
+		name = houseName // shared: names are not checked for uniqueness
 	case 2:
 		name = ""
 	case 3:
+		name = "r0"
+	case 4:
 		name = "a rule/with:odd chars"
 	}
 	scope := []string{"trace", "", "span", "bogus"}[r.Pick(38, 15, 42, 5)]
-	rate := []int{1, 2, 3, 10, 0, -1, 100}[r.Pick(28, 22, 12, 12, 12, 3, 11)]
-	down := "none"
-	switch r.Pick(74, 14, 8, 4) {
-	case 1:
-		down = fmt.Sprintf("det%d", []int{1, 2, 3, 7}[r.Intn(4)])
-	case 2:
-		down = fmt.Sprintf("dyn%d", []int{1, 2, 5}[r.Intn(3)])
-	case 3:
-		down = "missing2"
+	if r.Chance(55) {
+		scope = houseScope
 	}
-	ops := []string{fmt.Sprintf("rule name=%s scope=%s rate=%d drop=%s down=%s", kit.Enc(name), kit.Enc(scope), rate, b01(r.Chance(20)), down)}
+	rate := []int{1, 2, 3, 10, 0, -1, 100}[r.Pick(28, 22, 12, 12, 12, 3, 11)]
+	drop := r.Chance(20)
+	down := "none"
+	if r.Chance(36) {
+		down = genDown(r)
+		if r.Chance(75) { // SampleRate / Drop are not used by a delegating rule
+			rate, drop = 1, false
+		}
+	}
+	ops := []string{fmt.Sprintf("rule name=%s scope=%s rate=%d drop=%s down=%s", kit.Enc(name), kit.Enc(scope), rate, b01(drop), down)}
 	nc := []int{0, 1, 2, 3, 4}[r.Pick(7, 38, 30, 15, 10)]
+	if r.Chance(50) {
+		nc = houseConds
+	}
 	for i := 0; i < nc; i++ {
 		ops = append(ops, genCond(r))
 	}
@@ -870,6 +911,9 @@ func (comp) Gen(r *kit.Rng, maxLen int, tier string) kit.Case {
 	var ops []string
 	genThresholds = genThresholds[:0]
 	genNested = r.Chance(45)
+	houseScope = []string{"trace", "", "span"}[r.Pick(40, 15, 45)]
+	houseConds = []int{0, 1, 2}[r.Pick(15, 60, 25)]
+	houseName = []string{"", "svc", "errors"}[r.Intn(3)]
 	nr := 1 + r.Intn(6)
 	for i := 0; i < nr; i++ {
 		ops = append(ops, genRule(r, i)...)
